@@ -99,4 +99,4 @@ func ReplayInChild(casePath, dbPath string, jitter uint64) (SyncResult, Dump, er
 	return r.Result, r.Dump, nil
 }
 
-func childCrash(sc *Scenario) {} // filled in by c02.go
+func childCrash(sc *Scenario) { childCrashImpl(sc) } // see c02.go
